@@ -903,8 +903,9 @@ func (s *scanner) scanName() string {
 }
 
 func isName(r rune) bool {
+	// '*' is never part of a name: it is the multiply operator or a wildcard.
 	return string(r) != ":" && string(r) != "/" &&
-		(unicode.Is(first, r) || unicode.Is(second, r) || string(r) == "*")
+		(unicode.Is(first, r) || unicode.Is(second, r))
 }
 
 func isDigit(r rune) bool {
